@@ -158,7 +158,7 @@ func c20Eval(src string, overrides map[string]string) *Case {
 
 type mdGen struct{ r *rand.Rand }
 
-var mdWords = []string{"alpha", "beta", "gamma", "delta", "x < y", "a & b", "&amp;", "&copy;", "&lt;b&gt;", `\*not em\*`, `back\\slash`, "{{ name }}", "{{secret}}", "<there>", "1 > 0", "it's", `"quoted"`, "tail.", "C++", "a_b_c", "100%"}
+var mdWords = []string{`\&copy;`, `\&amp;`, `\&#35;`, `&#38;lt;`, `&#38;amp;`, `\&nbsp;`, `&amp;copy;`, `\\&amp;`, "alpha", "beta", "gamma", "delta", "x < y", "a & b", "&amp;", "&copy;", "&lt;b&gt;", `\*not em\*`, `back\\slash`, "{{ name }}", "{{secret}}", "<there>", "1 > 0", "it's", `"quoted"`, "tail.", "C++", "a_b_c", "100%"}
 
 func (g *mdGen) words(n int) string {
 	var p []string
@@ -299,7 +299,7 @@ func runC20(r *Run, replay *Case) {
 	r.Res.Rule = "documents from a CommonMark/GFM grammar (headings, paragraphs, nested emphasis, code spans/blocks, links/images with titles, nested and task lists, blockquotes, tables with alignment, " +
 		"hard/soft breaks, raw HTML, autolinks, escapes, entities, mustache-looking text) vs goldmark's HTML renderer; arbitrary byte strings for never-fails; every single template override and sampled subsets; " +
 		"non-trivial = the document contains markup-significant characters; distinct by source"
-	for _, s := range []string{"plain *em* text", "a < b & c", "&amp; &copy; &lt;", `\*literal\* \\ back`, "{{ name }} {{secret}}", "# Hello <there>", "`{{ x }}` and `<b>`", "[l](http://x/?a=1&b=2 \"t\")", c20AllKinds} {
+	for _, s := range []string{"plain *em* text", "a < b & c", "&amp; &copy; &lt;", `\*literal\* \\ back`, "{{ name }} {{secret}}", "# Hello <there>", "`{{ x }}` and `<b>`", "[l](http://x/?a=1&b=2 \"t\")", `write \&copy; and \&amp; and &#38;lt; once`, "# The \\&amp; entity\n\n- *\\&nbsp;*\n\n| a |\n|---|\n| \\&amp; |", c20AllKinds} {
 		r.Add(c20Eval(s, nil))
 	}
 	g := &mdGen{r: r.Rng}
